@@ -763,6 +763,13 @@ class S3StorageBackend(StorageBackend):
         from .s3_consistency import with_s3_retry
 
         s3_prefix = self._get_s3_key(prefix)
+        # `prefix` names a DIRECTORY (as on the local backend), but S3 matches
+        # key prefixes as plain strings: listing "data" also returned
+        # "data2/x", "data.bak" and "datafile" - objects of other directories,
+        # which garbage collection would then classify as this table's
+        # orphans. Anchor the match at a path boundary.
+        if s3_prefix and not s3_prefix.endswith("/"):
+            s3_prefix += "/"
 
         def list_op() -> List[str]:
             result = []
